@@ -166,7 +166,7 @@ class LiveServer:
 
 
 def raw_request(port, method, path, header_lines, body=b"", version="HTTP/1.1", timeout=5.0,
-                after_upgrade=None):
+                after_upgrade=None, probe=None, probe_out=None):
     """Send one request; return (status, {lower-name: [values]}, body bytes, extra).
 
     ``header_lines`` are bytes objects ``b"Name: value"`` sent verbatim.
@@ -210,6 +210,11 @@ def raw_request(port, method, path, header_lines, body=b"", version="HTTP/1.1", 
                         extra += chunk
                 except socket.timeout:
                     pass
+            if probe is not None and probe_out is not None:
+                # evaluated while the upgraded connection is still open
+                probe_out["value"] = probe()
+            return status, hdrs, b"", extra
+        if method == "HEAD":
             return status, hdrs, b"", extra
         clen = int(hdrs.get("content-length", ["0"])[0] or 0)
         bodyb = rest
